@@ -19,12 +19,17 @@ import (
 	"crypto/elliptic"
 	crand "crypto/rand"
 	"crypto/rsa"
+	"crypto/sha1"
+	"encoding/hex"
 	"encoding/json"
 	"errors"
+	"flag"
 	"fmt"
 	"io"
 	"net/http"
 	"os"
+	"os/exec"
+	"path/filepath"
 	"reflect"
 	"runtime"
 	"strings"
@@ -726,9 +731,191 @@ func (s *script) finishTags() {
 	}
 }
 
+// ---------------------------------------------------------------- free-running stress (run under -race)
+
+// freeEndpoint answers without a gate, after a short random delay, alternating
+// between two key sets and (optionally) failures.
+type freeEndpoint struct {
+	mu     sync.Mutex
+	reqs   int
+	served map[int]bool // key materials served in a 200 body so far
+	bodies []*respSpec
+	delay  func() time.Duration
+}
+
+func (f *freeEndpoint) RoundTrip(req *http.Request) (*http.Response, error) {
+	f.mu.Lock()
+	r := f.bodies[f.reqs%len(f.bodies)]
+	f.reqs++
+	d := f.delay()
+	if r.status == 200 && !r.badDoc && !r.transport {
+		for _, e := range r.entries {
+			if e.jwk != nil {
+				f.served[e.jwk.key.mat] = true
+			}
+		}
+	}
+	f.mu.Unlock()
+	select {
+	case <-time.After(d):
+	case <-req.Context().Done():
+		return nil, req.Context().Err()
+	}
+	if r.transport {
+		return nil, errors.New("connection reset")
+	}
+	return &http.Response{StatusCode: r.status, Status: fmt.Sprint(r.status), Proto: "HTTP/1.1", ProtoMajor: 1, ProtoMinor: 1,
+		Header: http.Header{}, Body: io.NopCloser(bytes.NewReader(r.body())), Request: req}, nil
+}
+
+// stress runs rounds of unsynchronised concurrent calls and checks schedule-independent
+// facts only. It returns the list of violated facts.
+func stress(g *gen, rounds int) []string {
+	var bad []string
+	var badMu sync.Mutex
+	fail := func(f string, a ...any) {
+		badMu.Lock()
+		bad = append(bad, fmt.Sprintf(f, a...))
+		badMu.Unlock()
+	}
+	for round := 0; round < rounds; round++ {
+		tl := g.timeline(2)
+		for _, set := range tl {
+			for _, j := range set {
+				if j.kid == "" {
+					j.kid = g.freshKid()
+				}
+				j.use = "sig"
+			}
+		}
+		// a key published (uniquely) by both sets: its tokens must always verify
+		stable := &jwkSpec{kid: g.freshKid(), use: "sig", key: g.pool[round%len(g.pool)]}
+		tl[0] = append(tl[0], stable)
+		tl[1] = append(tl[1], stable)
+		withFailures := round%3 == 2
+		ep := &freeEndpoint{served: map[int]bool{}, bodies: []*respSpec{g.goodResp(tl[0]), g.goodResp(tl[1])}}
+		if withFailures {
+			ep.bodies = append(ep.bodies, g.failResp(tl[1]))
+		}
+		seedDelay := g.r.IntN(400)
+		ep.delay = func() time.Duration { return time.Duration(50+(ep.reqs*131+seedDelay)%400) * time.Microsecond }
+		ks := rp.NewRemoteKeySet(&http.Client{Transport: ep}, "http://jwks.invalid/keys")
+		var wg sync.WaitGroup
+		calls := 0
+		for c := 0; c < 8; c++ {
+			type job struct {
+				tok      *tokSpec
+				mustOk   bool
+				cancelIn time.Duration
+			}
+			var jobs []job
+			for k := 0; k < 3; k++ {
+				j := job{}
+				switch g.r.IntN(4) {
+				case 0:
+					j.tok, j.mustOk = g.token("valid", stable.kid, stable.key), !withFailures
+				case 1:
+					j.tok = g.randToken(tl, 0)
+				case 2:
+					j.tok = g.randToken(tl, 1)
+				default:
+					j.tok = g.token("unknownkid", "nope", drv.Pick(g.r, g.pool))
+				}
+				if g.r.Chance(1, 4) {
+					j.cancelIn, j.mustOk = time.Duration(g.r.IntN(300))*time.Microsecond, false
+				}
+				jobs = append(jobs, j)
+				calls++
+			}
+			wg.Add(1)
+			go func() {
+				defer wg.Done()
+				for _, j := range jobs {
+					ctx, cancel := context.WithCancel(context.Background())
+					if j.cancelIn > 0 {
+						time.AfterFunc(j.cancelIn, cancel)
+					}
+					jws, err := jose.ParseSigned(j.tok.compact, allAlgs)
+					must(err)
+					var payload []byte
+					if p := drv.Catch(func() { payload, err = ks.VerifySignature(ctx, jws) }); p != "" {
+						fail("panic: %s", p)
+					}
+					cancel()
+					if err == nil {
+						ep.mu.Lock()
+						ok := ep.served[j.tok.signer.mat]
+						ep.mu.Unlock()
+						if !ok || !bytes.Equal(payload, j.tok.payload) {
+							fail("accepted a token whose signer key was never served (kind=%s)", j.tok.kind)
+						}
+					} else if j.mustOk {
+						fail("token of a key every answer publishes was rejected: %v", err)
+					}
+				}
+			}()
+		}
+		done := make(chan struct{})
+		go func() { wg.Wait(); close(done) }()
+		select {
+		case <-done:
+		case <-time.After(10 * time.Second):
+			fail("calls hung in round %d", round)
+			return bad
+		}
+		ep.mu.Lock()
+		reqs := ep.reqs
+		ep.mu.Unlock()
+		if reqs > calls {
+			fail("more downloads (%d) than calls (%d)", reqs, calls)
+		}
+	}
+	return bad
+}
+
+// raceSoak (thorough tier) rebuilds this driver with -race and runs the scripts plus the
+// stress rounds under the race detector. ran=false when the toolchain cannot do it.
+func raceSoak(cfg drv.Config) (ran, clean bool, detail string) {
+	root, repo := os.Getenv("VERIF_ROOT"), os.Getenv("VERIF_REPO_DIR")
+	if root == "" {
+		return false, false, "VERIF_ROOT not set"
+	}
+	suffix := ""
+	args := []string{"build", "-race", "-tags", "verif"}
+	if repo != "" && repo != "/repo" {
+		h := sha1.Sum([]byte(repo))
+		suffix = "-" + hex.EncodeToString(h[:])[:10]
+		args = append(args, "-modfile="+filepath.Join(root, "build", "go."+suffix[1:]+".mod"))
+	}
+	bin := filepath.Join(root, "build", "bin", "c13-race"+suffix)
+	args = append(args, "-o", bin, "./cmd/c13")
+	b := exec.Command("go", args...)
+	b.Dir = filepath.Join(root, "harness")
+	if out, err := b.CombinedOutput(); err != nil {
+		return false, false, "go build -race failed: " + string(out)
+	}
+	tmp, err := os.MkdirTemp("", "c13race")
+	if err != nil {
+		return false, false, err.Error()
+	}
+	defer os.RemoveAll(tmp)
+	c := exec.Command(bin, "-stress", "-tier", "quick", "-seed", fmt.Sprint(cfg.Seed), "-n", "200", "-out", tmp)
+	c.Env = append(os.Environ(), "GORACE=halt_on_error=0 exitcode=66")
+	out, err := c.CombinedOutput()
+	txt := string(out)
+	if len(txt) > 3000 {
+		txt = txt[:3000]
+	}
+	if err != nil || strings.Contains(txt, "DATA RACE") || strings.Contains(txt, "STRESS VIOLATION") {
+		return true, false, fmt.Sprintf("%v\n%s", err, txt)
+	}
+	return true, true, strings.TrimSpace(txt)
+}
+
 // ---------------------------------------------------------------- main
 
 func main() {
+	stressMode := flag.Bool("stress", false, "child mode of the race soak: scripts + free-running stress, no case files needed")
 	cfg := drv.Parse()
 	r := drv.NewRand(cfg.Seed)
 	w := emit.NewWriter(cfg.Out, "C13_spec", 0, cfg.Only)
@@ -785,12 +972,33 @@ func main() {
 		human["steps"] = hs
 		w.Add(emit.Case{Input: coqScript(s), Observed: coqObserved(snaps2, pan2), Tags: s.tags, Human: human})
 	}
+	var notes []string
+	if *stressMode {
+		bad := stress(g, 60)
+		for _, b := range bad {
+			fmt.Println("STRESS VIOLATION:", b)
+		}
+		fmt.Printf("stress: 60 rounds x 24 calls, %d violated facts; scripts: %d, reruns %d\n", len(bad), n, reruns)
+		if len(bad) > 0 {
+			os.Exit(67)
+		}
+	}
+	if !cfg.Quick && !*stressMode && cfg.Only < 0 {
+		ran, clean, detail := raceSoak(cfg)
+		if ran {
+			w.Add(emit.Case{Input: "RaceSoak", Observed: emit.Ctor("ORace", emit.Bool(clean)), Tags: []string{"shape=race_soak"},
+				Human: map[string]any{"what": "200 scripts + 60 free-running stress rounds under go build -race", "output": detail}})
+		} else {
+			notes = append(notes, "race soak not run: "+detail)
+		}
+	}
 	must(w.Close(emit.Meta{
 		Property: "C13", Tier: cfg.Tier, Seed: cfg.Seed,
 		Rule: "each case = one macro-schedule (arrive/cancel/release) of 2-6 concurrent VerifySignature calls on a fresh rp.NewRemoteKeySet " +
 			"behind a gated RoundTripper; 1 in 4 directed shapes (owner cancel, pre-cancelled owner, joiner cancel, rotation, failure keeps cache, unknown kid), " +
 			"the rest random phases over a timeline of rotating key sets with valid/future/older/unknown-kid/kid-less/wrong-key tokens and good/5xx/5xx-with-JWKS/bad-JSON/junk-only/empty/transport-error answers. " +
 			"Observed = snapshot after every step at quiescence. non-trivial = at least one caller arrived (path != 0); distinct = distinct (input, observed) terms.",
+		Notes: notes,
 		Extra: map[string]any{"reruns_after_disagreeing_observations": reruns, "unstable_scripts": unstable, "quiescence_timeouts": timeouts},
 	}))
 }
